@@ -100,7 +100,7 @@ def shards(tier: str) -> list:
     fn = "h05_3" if tier == "quick" else "h05_4"
     for st in stages:
         for i in _enabled_first(st):
-            out.append({"fn": fn, "env": {"STAGE": st, "SH0": i}, "cond_timeout": 280 if tier == "quick" else 1500,
+            out.append({"fn": fn, "env": {"STAGE": st, "SH0": i}, "cond_timeout": 600 if tier == "quick" else 2400,
                         "path_timeout": 60,
                         "desc": f"stage {E.STAGE_NAMES[st]}, first event {E.NAMES[ALPHA[i]]}, then {2 if tier == 'quick' else 3} symbolic events"})
     return out
